@@ -93,6 +93,7 @@ func writeNativeOverlay(dir string, extra map[string][]byte) (string, error) {
 const replayTestTmpl = `package %s
 
 import (
+	"encoding/json"
 	"fmt"
 	"os"
 	"testing"
@@ -134,6 +135,8 @@ func TestVerifReplay(t *testing.T) {
 	case <-time.After(%d * time.Second):
 		fmt.Println("VERIF-RESULT: deadlock (no return within the watchdog)")
 	}
+	tb, _ := json.Marshal(zz.Trace)
+	fmt.Println("VERIF-TRACE:", string(tb))
 }
 `
 
@@ -248,6 +251,18 @@ func runNative(pkgRel, pkgName, harnessName, replayPath string, watchdog int) (s
 		}
 	}
 	return "", out.String(), fmt.Errorf("no VERIF-RESULT line")
+}
+
+// nativeTrace extracts the VERIF-TRACE line of a native run.
+func nativeTrace(full string) []string {
+	for _, l := range strings.Split(full, "\n") {
+		if strings.HasPrefix(l, "VERIF-TRACE: ") {
+			var t []string
+			json.Unmarshal([]byte(strings.TrimPrefix(l, "VERIF-TRACE: ")), &t)
+			return t
+		}
+	}
+	return nil
 }
 
 type violationFile struct {
